@@ -249,6 +249,8 @@ def filterApply (f : FilterFn) (res : Res) : Res × Bool :=
 structure ProjField where
   key : Bytes
   fixed : Option (List Bytes)
+  /-- the order name is none of first / fixed / alpha / num (`key@bogus`) -/
+  badOrder : Bool := false
 
 inductive ProjErr
   | unknownOrder | fixedConfig | unitKey | emptyKey
@@ -271,7 +273,7 @@ def fixedFn (excl : List Bytes) (key : Bytes) (fixed : List Bytes) : FilterFn :=
 /-- validity of one field (`makeProjection`'s error returns that do not depend on the order name) -/
 def checkField (f : ProjField) : Except ProjErr Unit :=
   -- `key@fixed`: order "fixed" without a list is not an order (commit 147e6a6)
-  if f.fixed == some [] then .error .unknownOrder
+  if f.badOrder || f.fixed == some [] then .error .unknownOrder
   else if f.key == dotConfig then (if f.fixed.isSome then .error .fixedConfig else .ok ())
   else if f.key == dotFullname then .ok ()
   else if f.key == dotUnit then .error .unitKey
@@ -292,6 +294,39 @@ def filterParts (excl : List Bytes) (fields : List ProjField) : List FilterFn :=
 def parseInto (excl : List Bytes) (fields : List ProjField) (user : FilterFn) : FilterFn :=
   let ps := filterParts excl fields
   if ps.isEmpty then user else andFn (ps ++ [user])
+
+/-! A `Parse` call as written (projection.go:79-103): the fields are compiled in order and the
+filter parts are only COLLECTED; the first rejected field aborts the call — the parser state is
+restored (commit 91c9aa7) and `filter.match` has not been touched; only when every field compiled
+are the parts installed. -/
+
+/-- the loop over the fields: the collected parts, or the first error -/
+def parseLoop (excl : List Bytes) : List ProjField → List FilterFn → Except ProjErr (List FilterFn)
+  | [], parts => .ok parts
+  | f :: fs, parts =>
+    match checkField f with
+    | .error e => .error e
+    | .ok () =>
+      parseLoop excl fs (match f.fixed with
+        | some l => parts ++ [fixedFn excl f.key l]
+        | none => parts)
+
+/-- one `Parse(projection, filter)` call: the new `filter.match` and the error, if any -/
+def parseCall (excl : List Bytes) (fields : List ProjField) (user : FilterFn) : FilterFn × Option ProjErr :=
+  match parseLoop excl fields [] with
+  | .error e => (user, some e)
+  | .ok ps => (if ps.isEmpty then user else andFn (ps ++ [user]), none)
+
+/-- a history of `Parse` calls (accepted and rejected ones) on one parser and one filter, all
+before the first result; `excl` is `p.fullnameKeys` when the first result arrives, i.e. the
+sub-name keys of the ACCEPTED expressions -/
+def parseHistory (excl : List Bytes) : List (List ProjField) → FilterFn → FilterFn
+  | [], user => user
+  | fs :: rest, user => parseHistory excl rest (parseCall excl fs user).1
+
+/-- the accepted expressions of a history -/
+def acceptedOf (projs : List (List ProjField)) : List (List ProjField) :=
+  projs.filter fun fs => match checkFields fs with | .ok () => true | .error _ => false
 
 /-- several `Parse` calls on one parser and one filter, all before the first result -/
 def parseAll (excl : List Bytes) : List (List ProjField) → FilterFn → FilterFn
